@@ -469,6 +469,12 @@ struct Gen {
       // dependencies through /showIncludes-style output
       if (s.deps_kind != 3) s.pool = "console";
     }
+    // one statement in twelve has no explicit input ($in is empty), half of those no input at
+    // all (a stamp or version header)
+    if (i > 0 && Hash64(s.outs[0], (uint64_t)i * 9 + 4) % 12 == 0) {
+      s.ins.clear();
+      if (Hash64(s.outs[0], (uint64_t)i * 9 + 5) % 2 == 0) { s.imp_ins.clear(); s.oo_ins.clear(); }
+    }
     sc.stmts.push_back(s);
     for (auto& o : s.outs) { avail.push_back(o); gen_outs.push_back(o); }
     for (auto& o : s.imp_outs) { avail.push_back(o); gen_outs.push_back(o); }
